@@ -14,6 +14,7 @@ use tough::sign::Sign;
 
 mod history;
 mod misc;
+mod targets;
 
 pub fn kp() -> Ed25519KeyPair {
     let doc = Ed25519KeyPair::generate_pkcs8(&SystemRandom::new()).unwrap();
@@ -117,6 +118,7 @@ async fn main() {
         "verify_role" => op_verify_role(sc).await,
         "history" => history::run(sc).await,
         "canon" => misc::canon(sc),
+        "target_stream" => targets::op_target_stream(sc).await,
         _ => json!({"error": format!("unknown op {op}")}),
     };
     println!("{}", out);
